@@ -25,7 +25,7 @@ import Verif.Model.Constraints
             (i issued, c client error, s server error; `frontDemand`)
 
   Stage `paths` (source-derived facts, against the tables `issuePaths`, `frontEnds`, `certCreators`):
-      st=paths fn=<function>|tpl:<function>|*|frontends|creators
+      st=paths fn=<function>|tpl:<function>|rootsel|*|frontends|creators
     output: the calls of interest of that function in source order (V! G! C R, `?` = unchecked),
             or the comma-separated list
 
@@ -173,9 +173,12 @@ def evalChain (kv : List (String × String)) : Option String := do
     | false, .parse => GoV.parse
     | _, _ => GoV.ok   -- spec and verifier model disagree: flagged below
   if (specAccept full n) != (goVerify full n == .ok) then pure "spec-mismatch" else
+  -- `san=ext`: the template carries the names in a subjectAltName extension (`seenNames`)
+  let carrier := if lookup kv "san" = some "ext" then SanCarrier.extension else SanCarrier.fields
   let coded := match chainForSig ints roots with
     | none => Verdict.allow
-    | some ch => engineUnderTest (ch.map (·.nc)) n
+    | some ch => engineUnderTest (ch.map (·.nc)) (seenNames carrier n)
+  let why := fun (l : List Level) => if carrier = .extension then "extsan" else why l
   match v with
   | .nc =>
     -- the property: a name outside the constraints must not be signed (403, or the 500 of an
@@ -210,6 +213,7 @@ def evalPaths (fn : String) : String :=
   | "*" => ",".intercalate (issuePaths.map (·.1))
   | "frontends" => joinS frontEnds
   | "creators" => joinS certCreators
+  | "rootsel" => joinS rootSelShape
   | f =>
     if f.startsWith "tpl:" then
       match templatePaths.find? (·.1 = (f.drop 4).toString) with
